@@ -312,8 +312,11 @@ class Session:
             f = zbool(f)
         self.ctx.assume(f)
 
-    def tensor(self, name, shape, dtype="real", on_access=None):
-        """an arbitrary input tensor (uninterpreted contents)"""
+    def tensor(self, name, shape, dtype="real", on_access=None, mutable=False):
+        """an arbitrary input tensor (uninterpreted contents).  Contracts read inputs lazily through the cell,
+        so a cell that the code under contract updates in place would silently change the meaning of every
+        pre-state term: unless `mutable`, the runner emits a frame obligation that the cell still holds its
+        original value at the end of every path."""
         dims = [core.dim_of(s) for s in shape]
         rng = core.SORTS[dtype]()
         arity = sum(len(d.factors) for d in dims)
@@ -328,6 +331,8 @@ class Session:
 
         t = Tensor(STensor(dims, fn, dtype, name))
         self.ctx.ghost.setdefault("input_tensors", {})[name] = (f, dims, dtype)
+        if not mutable:
+            self.ctx.ghost.setdefault("input_cells", []).append((name, t, t.val))
         return t
 
     # ---- repo access
